@@ -148,13 +148,11 @@ def get_mutators():
 
 def is_relevant(node):
     """Checks whether this theory might be relevant for this node."""
-    if node.has_ident():
-        if node.get_ident() in ['declare-const'] and len(node) > 2:
-            if nodes.contains(node[2], lambda t: t in ['Int', 'Real']):
-                return True
-        elif node.get_ident() in [
-                'declare-fun', 'define-fun', 'define-sort'
-        ] and len(node) > 3:
-            if nodes.contains(node[3], lambda t: t in ['Int', 'Real']):
-                return True
+    if node.has_ident() and node.get_ident() in [
+            'declare-const', 'declare-fun', 'define-fun', 'define-fun-rec',
+            'define-funs-rec', 'define-sort', 'declare-datatype',
+            'declare-datatypes'
+    ]:
+        # the sort may be the sort of the symbol, of an argument or of a field
+        return nodes.contains(node, lambda t: t in ['Int', 'Real'])
     return False
